@@ -70,6 +70,68 @@ func (o *Oblig) coverQF() string {
 	return strings.Join(out, "\n")
 }
 
+// slimScript: the obligation with the bulky hypotheses left out — quantified conjuncts of the function's own
+// preconditions, of loop invariants assumed at loop heads and of earlier postconditions used as lemmas. Dropping
+// hypotheses is sound for `unsat`; many obligations follow from callee postconditions and definitions alone, and the
+// small query is decided instantly where the full one makes the solver wander. Returns "" when nothing is dropped.
+func (o *Oblig) slimScript() string {
+	vc := o.vc
+	if vc == nil || o.Kind == "cover" {
+		return ""
+	}
+	var body []*Term
+	dropped := 0
+	for i, a := range vc.assumes[:o.NAssume] {
+		t := byte(0)
+		if i < len(vc.tags) {
+			t = vc.tags[i]
+		}
+		if (t == 'R' || t == 'I' || t == 'L' || t == 'V') && hasQuant(a) {
+			dropped++
+			continue
+		}
+		body = append(body, a)
+	}
+	if dropped < 6 {
+		return ""
+	}
+	return buildScript(vc, body, mkAnd(o.Reach, mkNot(o.Goal)), false)
+}
+
+// identScript: quantifier-free hypotheses plus the quantified hypotheses that state the goal itself (possibly under
+// another reach guard): settles "the callee just re-established exactly this" without any quantifier reasoning.
+func (o *Oblig) identScript() string {
+	vc := o.vc
+	if vc == nil || o.Kind == "cover" || !hasQuant(o.Goal) {
+		return ""
+	}
+	gs := alphaKey(o.Goal)
+	var body []*Term
+	found := false
+	for _, a := range vc.assumes[:o.NAssume] {
+		if !hasQuant(a) {
+			body = append(body, a)
+			continue
+		}
+		f := a
+		if a.Kind == TApp && a.Op == "=>" && len(a.Args) == 2 {
+			f = a.Args[1]
+		}
+		// the hypothesis may state the goal as one conjunct under its quantifier: compare conjunct-wise
+		for _, part := range splitGoal(f) {
+			if part.Kind == TQuant && alphaKey(part) == gs {
+				body = append(body, a)
+				found = true
+				break
+			}
+		}
+	}
+	if !found {
+		return ""
+	}
+	return buildScript(vc, body, mkAnd(o.Reach, mkNot(o.Goal)), false)
+}
+
 func (o *Oblig) script(wantModel bool) string {
 	vc := o.vc
 	var body []*Term
@@ -123,7 +185,7 @@ func buildScript(vc *VC, assumes []*Term, final *Term, wantModel bool) string {
 	if needStrlen {
 		delete(ufs, "strlen")
 		sb.WriteString("(declare-fun strlen (Str) Int)\n")
-		sb.WriteString("(assert (forall ((s Str)) (! (>= (strlen s) 0) :pattern ((strlen s)))))\n")
+		sb.WriteString("(assert (forall ((s Str)) (! (and (>= (strlen s) 0) (<= (strlen s) 4611686018427387904)) :pattern ((strlen s)))))\n")
 	}
 	for _, k := range sortedKeys(ufs) {
 		t := ufs[k]
@@ -359,38 +421,54 @@ type solverResult struct {
 }
 
 func runSolver(name string, script string, timeout time.Duration, dir string, id int, seed int) solverResult {
-	file := filepath.Join(dir, fmt.Sprintf("q%d-%s.smt2", id, name))
+	return runSolverCtx(context.Background(), name, script, timeout, dir, id, seed)
+}
+
+// solverSlots bounds the number of solver processes running at the same time (one per core): timeouts are CPU
+// budgets, oversubscription would turn proofs into spurious timeouts.
+var solverSlots = make(chan struct{}, 16)
+
+func runSolverCtx(parent context.Context, name string, script string, timeout time.Duration, dir string, id int, seed int) solverResult {
+	select {
+	case solverSlots <- struct{}{}:
+	case <-parent.Done():
+		return solverResult{verdict: "cancelled", solver: name}
+	}
+	defer func() { <-solverSlots }()
+	if parent.Err() != nil {
+		return solverResult{verdict: "cancelled", solver: name}
+	}
+	file := filepath.Join(dir, fmt.Sprintf("q%d-%s.smt2", id, strings.ReplaceAll(name, "#", "_")))
 	if err := os.WriteFile(file, []byte(script), 0o644); err != nil {
 		return solverResult{verdict: "error", out: err.Error(), solver: name}
 	}
 	defer os.Remove(file)
 	ms := int(timeout / time.Millisecond)
 	var cmd *exec.Cmd
-	ctx, cancel := context.WithTimeout(context.Background(), timeout+3*time.Second)
+	ctx, cancel := context.WithTimeout(parent, timeout+3*time.Second)
 	defer cancel()
-	switch name {
-	case "z3-new":
+	switch {
+	case name == "z3-new":
 		cmd = exec.CommandContext(ctx, "z3-new", fmt.Sprintf("-t:%d", ms), fmt.Sprintf("smt.random_seed=%d", seed), "-smt2", file)
-	case "z3-new-noext#1", "z3-new-noext#2", "z3-new-noext#3":
-		// portfolio variants: other seeds and instantiation thresholds (quantifier heuristics are chaotic on large queries)
-		k := int(name[len(name)-1] - '0')
-		opts := []string{fmt.Sprintf("-t:%d", ms), fmt.Sprintf("smt.random_seed=%d", seed+17*k), "smt.array.extensional=false"}
-		switch k {
+	case strings.HasPrefix(name, "z3-new-noext#"):
+		// portfolio variants: other seeds (and a few heuristic switches): quantifier instantiation is chaotic on
+		// large queries, the same goal is often proved in 0.3 s with one seed and not in 40 s with another
+		k := 0
+		fmt.Sscanf(name[len("z3-new-noext#"):], "%d", &k)
+		opts := []string{fmt.Sprintf("-t:%d", ms), fmt.Sprintf("smt.random_seed=%d", seed+k), "smt.array.extensional=false"}
+		switch k % 4 {
 		case 1:
 			opts = append(opts, "smt.qi.eager_threshold=5")
 		case 2:
 			opts = append(opts, "smt.restart_strategy=0", "smt.phase_selection=0")
-		case 3:
-			opts = append(opts, "smt.case_split=3", "smt.qi.eager_threshold=100")
 		}
 		cmd = exec.CommandContext(ctx, "z3-new", append(opts, "-smt2", file)...)
-	case "z3-new-noext":
-		// array extensionality off: fewer inferences (never unsound for `unsat`), much faster with array-valued
-		// arguments of abstract predicates
+	case name == "z3-new-noext":
+		// array extensionality off: fewer inferences (never unsound for `unsat`), much faster on these queries
 		cmd = exec.CommandContext(ctx, "z3-new", fmt.Sprintf("-t:%d", ms), fmt.Sprintf("smt.random_seed=%d", seed), "smt.array.extensional=false", "-smt2", file)
-	case "z3":
+	case name == "z3":
 		cmd = exec.CommandContext(ctx, "z3", fmt.Sprintf("-t:%d", ms), fmt.Sprintf("smt.random_seed=%d", seed), "-smt2", file)
-	case "cvc5":
+	default:
 		cmd = exec.CommandContext(ctx, "cvc5", fmt.Sprintf("--tlimit=%d", ms), fmt.Sprintf("--seed=%d", seed), "--lang=smt2", file)
 	}
 	var out bytes.Buffer
@@ -457,6 +535,9 @@ func solveAll(obs []*Oblig, opt solveOpts) {
 		o.scriptText = scripts[i]
 		if o.Kind == "cover" {
 			o.qfText = o.coverQF()
+		} else if o.Kind == "ensures" || o.Kind == "invariant" || o.Kind == "requires" || o.Kind == "frame" {
+			o.slimText = o.slimScript()
+			o.identText = o.identScript()
 		}
 	}
 	for i := range obs {
@@ -537,7 +618,29 @@ func solveOne(o *Oblig, id int, opt solveOpts) {
 		o.Verdict = "unsat"
 		return
 	}
-	r := runSolver("z3-new-noext", script, opt.timeout, opt.scratch, id, opt.seed)
+	primary := opt.timeout
+	if primary > 5*time.Second {
+		primary = 5 * time.Second // most obligations need well under a second; hard ones go to the portfolio
+	}
+	if o.identText != "" {
+		rs := runSolver("z3-new-noext", o.identText, 2*time.Second, opt.scratch, id+800000, opt.seed)
+		o.Attempts = append(o.Attempts, fmt.Sprintf("ident:%s:%s:%.2fs", rs.solver, rs.verdict, rs.secs))
+		if rs.verdict == "unsat" {
+			o.Verdict, o.Solver, o.TimeS, o.Output = "unsat", "z3-new-noext(ident)", rs.secs, rs.out
+			o.Slim = true
+			return
+		}
+	}
+	if o.slimText != "" {
+		rs := runSolver("z3-new-noext", o.slimText, 3*time.Second, opt.scratch, id+700000, opt.seed)
+		o.Attempts = append(o.Attempts, fmt.Sprintf("slim:%s:%s:%.2fs", rs.solver, rs.verdict, rs.secs))
+		if rs.verdict == "unsat" {
+			o.Verdict, o.Solver, o.TimeS, o.Output = "unsat", "z3-new-noext(slim)", rs.secs, rs.out
+			o.Slim = true
+			return
+		}
+	}
+	r := runSolver("z3-new-noext", script, primary, opt.scratch, id, opt.seed)
 	o.Attempts = append(o.Attempts, fmt.Sprintf("%s:%s:%.2fs", r.solver, r.verdict, r.secs))
 	if r.verdict == "sat" {
 		// a model without extensionality may be spurious: confirm with the full theory
@@ -547,21 +650,31 @@ func solveOne(o *Oblig, id int, opt solveOpts) {
 	}
 	if r.verdict != want && !(r.verdict == "sat" || r.verdict == "unsat") {
 		// race the others
-		others := []string{"cvc5", "z3", "z3-new", "z3-new-noext#1", "z3-new-noext#2", "z3-new-noext#3"}
+		others := []string{"z3-new-noext#1", "z3-new-noext#2", "z3-new-noext#3", "z3-new-noext#4", "z3-new-noext#5", "z3-new-noext#6", "z3-new-noext#7", "cvc5", "z3-new", "z3"}
 		rc := make(chan solverResult, len(others))
+		ctx, cancel := context.WithCancel(context.Background())
 		for j, nm := range others {
 			nm, j := nm, j
-			go func() { rc <- runSolver(nm, script, opt.timeout, opt.scratch, id+500000+j*100000, opt.seed) }()
+			sc := script
+			if o.slimText != "" && j%2 == 1 && strings.HasPrefix(nm, "z3-new-noext#") {
+				sc = o.slimText // every other seed works on the slim query
+			}
+			go func() { rc <- runSolverCtx(ctx, nm, sc, opt.timeout, opt.scratch, id+500000+j*100000, opt.seed) }()
 		}
 		for k := 0; k < len(others); k++ {
 			r2 := <-rc
-			o.Attempts = append(o.Attempts, fmt.Sprintf("%s:%s:%.2fs", r2.solver, r2.verdict, r2.secs))
-			if r2.verdict == "unsat" || r2.verdict == "sat" {
+			if r2.verdict == "unsat" || r2.verdict == "sat" || k == len(others)-1 {
+				o.Attempts = append(o.Attempts, fmt.Sprintf("%s:%s:%.2fs", r2.solver, r2.verdict, r2.secs))
+			}
+			if r2.verdict == "unsat" || (r2.verdict == "sat" && !strings.Contains(r2.solver, "noext")) {
 				if !(r.verdict == "unsat" || r.verdict == "sat") {
 					r = r2
+					r.secs += primary.Seconds()
 				}
+				cancel() // first definite answer wins; stop the rest
 			}
 		}
+		cancel()
 	}
 	o.Verdict, o.Solver, o.TimeS, o.Output = r.verdict, r.solver, r.secs, r.out
 	if o.Kind == "cover" {
